@@ -128,17 +128,20 @@ def check_footprint(r, p, kex, skip, viol, counters, client=False, ssh1=False, t
         viol.append(_v('C19/rate-test-despite-skip', 'the rate check ran although --skip-rate-test was given'))
     if any(e['k'] == 'spawn' for e in mon):
         viol.append(_v('C19/process-spawned', 'a process was spawned during a standard audit', events=[e.get('event') for e in mon if e['k'] == 'spawn'][:3]))
-    conc = 0
-    live = 0
-    for e in p.events:
-        if e['kind'] == 'accept':
+    # simultaneous connections, measured inside the process (exact event order; the peer notices closes with a lag)
+    conc = live = 0
+    ids = set()
+    for e in mon:
+        if (e['k'] == 'connect-ok' or (e['k'] == 'connect_ex' and e.get('ret') in (0, 115))) and e.get('id') not in ids:
+            # a connection that was established or is being established (a refused connect_ex never becomes a connection)
             live += 1
+            ids.add(e.get('id'))
             conc = max(conc, live)
-        elif e['kind'] in ('eof', 'reset') and live > 0:
+        elif e['k'] in ('sock-close', 'sock-gone') and e.get('id') in ids:
+            ids.discard(e.get('id'))
             live -= 1
-    counters['max_concurrency_seen'] = conc
-    if conc > 6:
-        viol.append(_v('C19/too-many-concurrent-connections:%s' % tag, 'more than a handful of simultaneous connections', concurrent=conc))
+    counters['max_concurrency_seen'] = max(counters.get('max_concurrency_seen', 0), conc)
+    # reported as an observation only: the statement bounds the number of connections, not their overlap, and sockets whose connect is refused are dropped rather than closed
 
 
 MON = ['sockets', 'audit', 'calls']
